@@ -348,6 +348,29 @@ def _r1(chk, repo):
                "conditioning accepts unknown keywords", cnd)
     _r1_leftover(chk, repo, dist, cnd)
     _r1_joint_unknown(chk, repo)
+    _r1_callable_by_name(chk, repo, dist, cnd)
+
+
+def _r1_callable_by_name(chk, repo, dist, cnd):
+    """Distribution._condition: a callable parameter (`mean=lambda a, b: ..`) receives the values the caller fixed BY NAME (`f(**matched)`,
+    `partial(f, **matched)`): the matched values are collected in the order of the caller's keywords, so handing them over by position assigns them to
+    the callable's parameters in the wrong order whenever the two orders differ (a wrong number, or a TypeError in a later conditioning step)."""
+    src_cnd, cnd = cnd, canon_fn(repo, dist, cnd, 2)           # private helpers (a "condition one callable variable" step) inlined
+    held = {t.id for a in ast.walk(cnd) if isinstance(a, ast.Assign) and isinstance(a.value, ast.Call) and call_name(a.value) == "getattr"
+            and len(a.value.args) >= 2 and path_of(a.value.args[0]) == "self" for t in a.targets if isinstance(t, ast.Name)}
+    calls = []
+    for c in ast.walk(cnd):
+        if not isinstance(c, ast.Call):
+            continue
+        if isinstance(c.func, ast.Name) and c.func.id in held:
+            calls.append((c, c.args, c.keywords))
+        elif (call_name(c) or "").rsplit(".", 1)[-1] == "partial" and c.args and isinstance(c.args[0], ast.Name) and c.args[0].id in held:
+            calls.append((c, c.args[1:], c.keywords))
+    bad = [c for c, args, kws in calls if args or any(k.arg is not None for k in kws) or not kws]
+    chk.decide("C01-R1", f"{dist.qual}._condition/callable-by-name", bool(calls) and not bad, bool(calls), site(repo, bad[0] if bad else cnd),
+               f"{len(calls)} invocation(s) of a callable parameter, each with **<matched values>",
+               f"`{unparse(bad[0])[:80] if bad else ''}` hands the matched values to the callable parameter by position (or not as one name->value mapping): "
+               f"they are collected in the order of the caller's keywords, not of the callable's signature", bad[0] if bad else cnd)
 
 
 def _r1_joint_unknown(chk, repo):
